@@ -32,6 +32,9 @@ TStep == /\ l <= Len(T.events)
          /\ Check(tid, l, "number-of-objects", Len(Ev.pool) = Len(pool'))
          /\ \A o \in 1..Len(pool') : Check(tid, l, IF o <= Len(pool) THEN "existing-object-untouched-by-" \o Ev.op
                                                                      ELSE "new-object-of-" \o Ev.op, ObjOk(o, Ev.pool[o]))
+         \* derived per-experiment attribute (single-agent effects): the PARENT's values at the selected rows, in parent order
+         /\ \A o \in 1..Len(pool') : Check(tid, l, "view-reports-parent's-single-agent-effects-at-its-rows",
+                  LET lg == Ev.pool[o] IN lg.e = [x \in 1..Len(lg.sel) |-> Ev.pste[lg.par][lg.sel[x]]])
          /\ (Ev.op = "to_screen" =>
                 LET np == parents'[Len(parents')] IN
                 Check(tid, l, "materialised-screen-has-the-view's-rows-in-order",
